@@ -164,6 +164,41 @@ def macro_get(P, b):
     return True, "", [c.loc for c in eqs]
 
 
+def macro_skip_none(P):
+    """Enumeration of a macro-built collection: an entry whose optional value is None is skipped - not passed on, not the end of the loop."""
+    b = P.impl_method("emit_core::props::Props", "emit::macro_hooks::__PrivateMacroProps<'a, N>", "for_each")
+    # the decision on an entry's value being None must lead back into the loop, not out of it
+    found = False
+    for bb, t in b.switches():
+        so = b.switch_origin(bb)
+        if so[0] != "discr":
+            continue
+        names = mir.o_field_path(so[1])[1]
+        x = so[1]
+        while x[0] in ("field", "downcast", "index"):
+            x = x[1]
+        if "1" not in names:
+            continue
+        if not b.in_cycle(bb):
+            continue
+        found = True
+        none_targets = [tgt for v, tgt in t["targets"] if v == "0"] or [t["otherwise"]]
+        for nt in none_targets:
+            # from the None edge the loop header (the next() call) must be reachable, i.e. iteration continues
+            hdrs = [h for s_, h in b.back_edges() if bb in b.loop_body(h)]
+            if not hdrs or not any(h in b.reachable_from(nt) for h in hdrs):
+                return False, ("when an entry's value is None (an #[emit::optional] capture of None) enumeration leaves the loop "
+                               "instead of skipping the entry: every property after it disappears from for_each"), [], "%s:%s" % (b.file, t.get("line"))
+            # and no visitor call on the None edge before looping
+            for c in b.calls(normal_only=True):
+                if c.callee.get("name") in ("call_mut", "call") and c.bb in b.reachable_from(nt) and not any(
+                        c.bb in b.reachable_from(h) for h in hdrs if h in b.reachable_from(nt)):
+                    return False, "a None entry is passed to the visitor", [], c.loc
+    if not found:
+        return False, "no per-entry test of the optional value found in the enumeration loop", [], b.span
+    return True, "", [b.span]
+
+
 def no_truncating_adaptors_rule(chk, P, key):
     def no_truncating_adaptors():
         EARLY = ("map_while", "take_while", "take", "scan", "step_by", "nth", "last", "min", "max", "find", "position", "any", "all")
@@ -517,6 +552,8 @@ def run(chk):
         elif k == "macro":
             f = lambda b=b: macro_get(P, b)
             chk.ob(key, "macro-built props: lookup makes no order assumption about the backing array (renamed keys)", f)
+            chk.ob("C02.R2:MacroProps-skip-None", "macro-built props: an entry whose optional value is None is not enumerated (lookup skips it too), and does not end the enumeration",
+                   lambda: macro_skip_none(P))
         else:
             # a lookup override the table above does not know: decide the part of coherence that is visible in the
             # shape of the two methods (keyed views: constant keys), fail closed otherwise
